@@ -56,7 +56,7 @@ func findPipeline(p *core.Program, r *core.Report, rule string) *pipeline {
 	if f := p.FuncByName("pkg/sumfile", "(*File).Save"); f != nil {
 		pl.save = flatten(p, f)
 	}
-	pl.filename = p.FuncByName("pkg/gengo", "(*genfile).Filename")
+	pl.filename = fileMethod(p, "Filename")
 	if pl.filename == nil {
 		// the exported method Filename of the file type, whatever the (unexported) type is called
 		for _, f := range p.Funcs() {
@@ -130,14 +130,11 @@ func c07R1(p *core.Program, r *core.Report, pl *pipeline) {
 	}
 	fi := pl.filename.Info()
 	okName := false
-	if len(pl.filename.Body.List) == 1 {
-		if ret, ok := pl.filename.Body.List[0].(*ast.ReturnStmt); ok && len(ret.Results) == 1 {
-			if sc := core.AsCall(fi, ret.Results[0], "fmt.Sprintf"); sc != nil && len(sc.Args) == 3 {
-				if s, isC := core.ConstString(fi, sc.Args[0]); isC && filenameFormat.MatchString(s) {
-					f1, f2 := core.FieldOf(fi, sc.Args[1]), core.FieldOf(fi, sc.Args[2])
-					okName = f1 != nil && f1.Name() == "OutputFileBaseName" && f2 != nil && f2.Name() == "name"
-				}
-			}
+	if ret := singleReturn(pl.filename); ret != nil {
+		// the text built is <op0> "." <op1> ".go" however it is spelled (Sprintf, concatenation)
+		if t, ok := exprTemplate(fi, ret); ok && t.Text == "\x00.\x00.go" && len(t.Ops) == 2 {
+			f1, f2 := core.FieldOf(fi, t.Ops[0]), core.FieldOf(fi, t.Ops[1])
+			okName = f1 != nil && f1.Name() == "OutputFileBaseName" && isRole(p, f2, "file.name")
 		}
 	}
 	r.Check(okName, rule, pl.filename, "file name is <OutputFileBaseName>.<generator>.go", pl.filename.Node().Pos(), "Sprintf(\"%s.%s.go\", args.OutputFileBaseName, ff.name)", "the output file name is not `<base>.<generator>.go`")
